@@ -92,6 +92,9 @@ JStep(id, k, ab, st, acc) ==
        sole |-> IF Cardinality(prim) = 1 THEN CHOOSE r \in prim : TRUE ELSE "",
        soleref |-> refused /\ Cardinality(prim) = 1,
        nrules |-> Cardinality(rules),
+       \* observation: UnknownDestinations (/ an approval) although fee or velocity would be excessive
+       unkx |-> v1.t = "unknown" /\ UnknownPathExcess(c, acc0, v1.ix) # {},
+       apprx |-> a2.res = "true" /\ a2.asked /\ UnknownPathExcess(c, acc0, a2.ix) # {},
        \* a violating acceptance is reported where it happens and does not count into the window
        \* (otherwise every later step of the session would be flagged as a consequence)
        acc |-> IF st.skipped \/ vio1 # {} THEN acc0 ELSE AccAfter(c, acc0, v1) ]
@@ -132,6 +135,8 @@ Report ==
     nmismatch   |-> Count(LAMBDA j : ~j.same),
     mismatches  |-> Briefs(Pick(LAMBDA j : ~j.same, 20)),
     stricter    |-> Count(LAMBDA j : j.stricter),
+    unknown_excess  |-> Count(LAMBDA j : j.unkx),
+    approved_excess |-> Count(LAMBDA j : j.apprx),
     mustrefuse  |-> Count(LAMBDA j : j.nrules > 0),
     sole        |-> [i \in DOMAIN RuleList |->
                       [rule |-> RuleList[i], n |-> Count(LAMBDA j : j.sole = RuleList[i]),
